@@ -358,6 +358,7 @@ func Layout(e *Env, r *GenResult) bool {
 	if r.Exit != 0 || r.Content == "" || r.PbContent == "" {
 		return false
 	}
+	os.RemoveAll(filepath.Join(e.Src, p.ID)) // nothing stale from an earlier preparation of this directory
 	r.Dir = p.ID + "/pk"
 	r.TfDir = r.Dir
 	sep := p.Config.TargetPackageName != "" && p.Config.DefaultPackageName != ""
